@@ -121,10 +121,19 @@ func parseRationalFloat64(buf []byte) float64 {
 	return parseFloat64(buf)
 }
 
-// parseUUID parses a UUID and returns a meta.UUID
+// parseUUID parses a UUID and returns a meta.UUID. The identifier follows the
+// last ':' of the value ("xmp.did:", "uuid:", "urn:uuid:",
+// "adobe:docid:photoshop:" ...).
 func parseUUID(buf []byte) (uuid meta.UUID) {
-	if _, b := readUntil(buf, ':'); len(b) > 0 {
-		buf = b
+	if i := bytes.LastIndexByte(buf, ':'); i >= 0 {
+		buf = buf[i+1:]
+	}
+	switch len(buf) {
+	case 32, 34, 36, 38:
+	default:
+		// not the length of any UUID text form: nothing to decode (and no
+		// error value to build for every item of a hostile list)
+		return
 	}
 	err := uuid.UnmarshalText(buf)
 	if err != nil {
